@@ -425,6 +425,17 @@ def run(ctx):  # noqa: C901, PLR0912, PLR0915
     gar = cfg_of(art)
     apps_ = [n_ for n_, c_ in gar.nodes_calling('append')]
     uncond = bool(apps_) and all(not list(gar.facts_at(n_).both()) for n_ in apps_)
+    # ... and whatever the exception text quotes from the request (a path element with a control character, a NUL byte), the
+    # reason text can be serialised: what is stored as `.text` went through a character filter, it is not the raw argument
+    tparam = [a.arg for a in art.node.args.args if a.arg != 'self'][0]
+    tstores = [n_.stmt.value for n_ in gar.real_nodes() if n_.kind == 'stmt' and isinstance(n_.stmt, ast.Assign) and
+               any(isinstance(t, ast.Attribute) and t.attr == 'text' for t in n_.stmt.targets)]
+    raw = [unparse(v) for v in tstores if isinstance(v, ast.Name) and v.id == tparam]
+    ctx.ob('C13.R3', 'the reason text is made XML compatible', bool(tstores) and not raw,
+           'Fault.add_reason_text stores a filtered text (characters that XML cannot carry are replaced)' if tstores and not raw else
+           'Fault.add_reason_text stores the text as it is: an exception text that quotes a control character of the request (path '
+           'element, value) cannot be serialised, the fault is lost inside the catch-all and the exception leaves do_post - the '
+           'peer gets a bare 500 instead of a SOAP fault', fi=art)
     ctx.ob('C13.R3', 'a fault always has a reason text', uncond,
            'Fault.add_reason_text appends the text unconditionally' if uncond else
            f'Fault.add_reason_text adds the text only under {[list(gar.facts_at(n_).both()) for n_ in apps_][:1]}: the fault built for '
@@ -627,6 +638,8 @@ _R = 'src/sdc11073/httpserver/httpreader.py'
 _H = 'src/sdc11073/httpserver/httprequesthandler.py'
 _MR = 'src/sdc11073/pysoap/msgreader.py'
 SEEDS = [
+    seed('reason text stored unfiltered again (the defect repaired by fe23efc)', 'C13.R3',
+         ('src/sdc11073/pysoap/soapenvelope.py', "        txt.text = _XML_INCOMPATIBLE_CHARS.sub('?', text)", "        txt.text = text")),
     seed('read_received_message with default parser', 'C13.R1',
          (_MR, "        parser = etree.ETCompatXMLParser(resolve_entities=False)\n        try:\n            doc_root = etree.fromstring(xml_text, parser=parser)",
           "        try:\n            doc_root = etree.fromstring(xml_text)")),
